@@ -211,6 +211,24 @@ int main (int argc, char **argv)
 					mv_free (&rich2) ;
 					}
 				}
+			/* C3. systematic field sweep of the first 64 header bytes (every even offset x 14 hostile 32-bit values), read and read-write */
+			if (s)
+			{	int fi, fk ; CORP cb ; cb.d = rich.d ; cb.len = (long) rich.len ; cb.format = format ; cb.ch = c ; cb.meta = 2 ;
+				for (fi = 0 ; fi < 32 ; fi++) for (fk = 0 ; fk < MUTATE_FIELD_KINDS ; fk++)
+				{	INPUT in ; MEMF mm ; char desc [200] ; int md ;
+					if (!vh_thorough && c == 2 && ((fi + fk) & 1)) continue ;
+					if (!vh_case ("%s ch=%d header field %d value %d", vh_fname (format), c, fi, fk)) continue ;
+					if (!mutate_field (&mm, &cb, fi, fk, 64, desc, sizeof (desc))) continue ;
+					for (md = 0 ; md < 2 ; md++)
+					{	in.d = mm.d ; in.len = (long) mm.len ; in.route = 0 ; in.mode = md ? SFM_RDWR : SFM_READ ;
+						snprintf (key, sizeof (key), "C16|leak|field-sweep|%s|%s", vh_fname (format), md ? "rdwr" : "read") ;
+						vh_distinct (vh_fnv (vh_fnv (0, mm.d, (size_t) mm.len), &md, 4) ^ 0xC3) ;
+						vh_stat ("field_sweep_inputs", 1) ;
+						account (key, scen_input, &in, 0) ;
+						}
+					mv_free (&mm) ;
+					}
+				}
 			/* D. single-shot and persistent I/O faults while opening/reading, and while writing */
 			if (s && c == 1)
 			{	int kind ; long at ;
